@@ -18,7 +18,7 @@ class TermInterp(Interp):
         self.concrete_loops = True
         self.name_intervals = False
         self.fail = []
-        self.ws = WS()
+        self.ws = WS(self.ts)
         self.word_mode = False          # pack four byte leaves into a 32-bit word leaf (hash functions)
 
     def bad(self, node, what):
@@ -268,7 +268,7 @@ class TermInterp(Interp):
         return None
 
     # ------------------------------------------------------------------ arithmetic
-    def wid(self, v):
+    def wid(self, v, pack=False):
         if v[0] == 'tw':
             return v[1]
         if v[0] == 'c':
@@ -276,6 +276,10 @@ class TermInterp(Interp):
         if v[0] == 'bv' and len(v[1]) == 4 and all(self.ts.node(i)[0] == 'v' for i in v[1]):
             # four message-byte leaves packed little-endian: one 32-bit word leaf
             return self.ws.leaf(tuple(self.ts.node(i)[1] for i in v[1]))
+        if v[0] == 'bv' and len(v[1]) == 4 and self.word_mode and pack:
+            if all(self.ts.is_k(i) for i in v[1]):
+                return self.ws.k(sum((self.ts.kval(i) & 0xff) << (8 * q) for q, i in enumerate(v[1])))
+            return self.ws.pack(v[1])
         return None
 
     def twv(self, i):
@@ -288,14 +292,14 @@ class TermInterp(Interp):
         if not wordish and self.word_mode and op in ('^', '&', '|', '+', '-') and (t or {}).get('bits') == 32 \
                 and self.wid(a) is not None and self.wid(b) is not None and (a[0] == 'bv' or b[0] == 'bv'):
             wordish = True
-        if not wordish and self.word_mode and op in ('<<', '>>') and b[0] == 'c' and b[1] % 8 and a[0] == 'bv' and self.wid(a) is not None:
+        if not wordish and self.word_mode and op in ('<<', '>>') and b[0] == 'c' and b[1] % 8 and a[0] == 'bv' and self.wid(a, True) is not None:
             wordish = True
         if wordish:
             ws = self.ws
             bits = (t or {}).get('bits', 32)
             if bits != 32:
                 return self.bad(n, 'word term in %d-bit arithmetic' % bits)
-            ia, ib = self.wid(a), self.wid(b)
+            ia, ib = self.wid(a, True), self.wid(b, True)
             if ia is None or ib is None:
                 return self.bad(n, 'word term combined with %s' % (a[0] if ia is None else b[0]))
             if op == '+':
@@ -359,10 +363,9 @@ class TermInterp(Interp):
                 elif ts.is_k(y) and ts.kval(y) == 0:
                     out.append(x)
                 elif op == '|':
-                    r = ts.map2(x, y, lambda p, q: p | q)
-                    if r is None:
-                        return self.bad(n, 'or of two non-zero bytes over different leaves')
-                    out.append(r)
+                    out.append(ts.bin('|', x, y))
+                elif self.word_mode and nb == 4 and self.wid(a, True) is not None and self.wid(b, True) is not None:
+                    return self.twv(self.ws.add([self.wid(a, True), self.wid(b, True)]))
                 else:
                     return self.bad(n, 'vector addition with overlapping bytes')
             return self.pack(tuple(out))
